@@ -2,6 +2,8 @@ import PyribsGen.Formulas
 import PyribsModel.Opt
 import Mathlib.Algebra.Order.Field.Rat
 import Mathlib.Tactic.Ring
+import Mathlib.Tactic.Linarith
+import Mathlib.Tactic.NormNum
 /-!
 # GenFOpt — the gradient optimizers' update rules are those of the source tree under check
 
@@ -70,5 +72,132 @@ theorem cma_params_match (n : Nat) (w : List Rat) :
     have e1 : ((n : Rat) + 13 / 10) * ((n : Rat) + 13 / 10) = ((n : Rat) + 13 / 10) ^ 2 := by ring
     have e2 : ((n : Rat) + 2) * ((n : Rat) + 2) = ((n : Rat) + 2) ^ 2 := by ring
     rw [e1, e2]
+
+/-- **G18d `cma_tell_steps_match`** : the scalar steps of `CMAEvolutionStrategy.tell` — `damps`, the
+`ps` and `pc` updates (coordinate-wise), `left` / `right` of the `hsig` test, `c1a` and the argument
+and product of the step-size update — are, as the code spells them now, the small functions the
+model's `cmaCore` is composed of; `sq` / `ex` stand for `np.sqrt` / `np.exp`, the model receives
+their values as supplied numbers (`sDamp`, `sPs`, `sPc`, `expV`) -/
+theorem cma_tell_steps_match {n : Nat} (sq ex : Rat → Rat) (mueff cs cc c1 sigma hsig cn : Rat)
+    (ps pc y z : Vec n) (k : Nat) :
+    dampsOf cs (sq ((mueff - 1) / ((n : Rat) + 1))) = GenF.cmaDamps sq mueff (n : Rat) cs ∧
+    (∀ j, psUpdate cs (sq (cs * (2 - cs) * mueff)) sigma ps z j
+        = GenF.cmaPs sq mueff cs sigma (ps j) (z j)) ∧
+    hsigLeft cs ps k = GenF.cmaLeft cs (n : Rat) (dot ps ps) k ∧
+    hsigRight n = GenF.cmaRight (n : Rat) ∧
+    (∀ j, pcUpdate cc (sq (cc * (2 - cc) * mueff)) hsig pc y j
+        = GenF.cmaPc sq mueff cc hsig (pc j) (y j)) ∧
+    c1aOf c1 cc hsig = GenF.cmaC1a c1 cc hsig ∧
+    sigma * ex (sigmaArg cn ps) = GenF.cmaSigma ex cn (n : Rat) (dot ps ps) sigma := by
+  refine ⟨?_, ?_, ?_, ?_, ?_, ?_, ?_⟩
+  · unfold dampsOf GenF.cmaDamps rmax
+    split <;> ring
+  · intro j; unfold psUpdate GenF.cmaPs; ring
+  · unfold hsigLeft GenF.cmaLeft; rw [rpow_eq_pow]
+  · unfold hsigRight GenF.cmaRight; rfl
+  · intro j; unfold pcUpdate GenF.cmaPc; ring
+  · unfold c1aOf GenF.cmaC1a; ring
+  · unfold sigmaArg GenF.cmaSigma rmin; rfl
+
+/-- **G18f `sep_tell_steps_match`** : the same steps in `SeparableCMAEvolutionStrategy.tell` (they are
+spelled separately in that file) -/
+theorem sep_tell_steps_match {n : Nat} (sq ex : Rat → Rat) (mueff cs cc c1 sigma hsig cn : Rat)
+    (ps pc y z : Vec n) (k : Nat) :
+    dampsOf cs (sq ((mueff - 1) / ((n : Rat) + 1))) = GenF.sepDamps sq mueff (n : Rat) cs ∧
+    (∀ j, psUpdate cs (sq (cs * (2 - cs) * mueff)) sigma ps z j
+        = GenF.sepPs sq mueff cs sigma (ps j) (z j)) ∧
+    hsigLeft cs ps k = GenF.sepLeft cs (n : Rat) (dot ps ps) k ∧
+    hsigRight n = GenF.sepRight (n : Rat) ∧
+    (∀ j, pcUpdate cc (sq (cc * (2 - cc) * mueff)) hsig pc y j
+        = GenF.sepPc sq mueff cc hsig (pc j) (y j)) ∧
+    c1aOf c1 cc hsig = GenF.sepC1a c1 cc hsig ∧
+    sigma * ex (sigmaArg cn ps) = GenF.sepSigma ex cn (n : Rat) (dot ps ps) sigma := by
+  refine ⟨?_, ?_, ?_, ?_, ?_, ?_, ?_⟩
+  · unfold dampsOf GenF.sepDamps rmax
+    split <;> ring
+  · intro j; unfold psUpdate GenF.sepPs; ring
+  · unfold hsigLeft GenF.sepLeft; rw [rpow_eq_pow]
+  · unfold hsigRight GenF.sepRight; rfl
+  · intro j; unfold pcUpdate GenF.sepPc; ring
+  · unfold c1aOf GenF.sepC1a; ring
+  · unfold sigmaArg GenF.sepSigma rmin; rfl
+
+/-- **G18g `cov_updates_match`** : `_calc_cov_update` of CMA-ES (entry `i, j`) and of sep-CMA-ES
+(coordinate `j`), including the rank-one term that carries `c1` twice -/
+theorem cov_updates_match {n : Nat} (c1a cmu c1 sigma : Rat) (w : List Rat) :
+    (∀ (C rm : Mat n) (pc : Vec n) (i j : Fin n),
+      cmaCovUpdate C c1a cmu c1 pc sigma rm w i j
+        = GenF.cmaCov (C i j) c1a cmu c1 (pc i * pc j) sigma (rm i j) w.sum) ∧
+    (∀ (C rm pc : Vec n) (j : Fin n),
+      sepCovUpdate C c1a cmu c1 pc sigma rm w j
+        = GenF.sepCov (C j) c1a cmu c1 (pc j) sigma (rm j) w.sum) := by
+  constructor
+  · intro C rm pc i j
+    unfold cmaCovUpdate GenF.cmaCov decayOf; ring
+  · intro C rm pc j
+    unfold sepCovUpdate GenF.sepCov decayOf; ring
+
+/-- **G18h `sep_params_match`** : the learning rates of sep-CMA-ES (`_calc_strat_params` with
+`_conedf` / `_cmudf`), given the square root of the dimension the model is supplied with -/
+theorem sep_params_match (sq : Rat → Rat) (n : Nat) (w : List Rat) :
+    let p := sepParams n w (sq (n : Rat))
+    let mueff := mueffOf w
+    let c1sep := GenF.sepC1Sep (GenF.sepC1 mueff (n : Rat)) (GenF.sepConedf sq (n : Rat) mueff (n : Rat))
+    p.cc = GenF.sepCcSep sq mueff (n : Rat) ∧
+    p.cs = GenF.sepCs mueff (n : Rat) ∧
+    p.c1 = c1sep ∧
+    p.cmu = GenF.sepCmuSep c1sep (GenF.sepCmudf sq (n : Rat) mueff 0) := by
+  intro p mueff c1sep
+  refine ⟨?_, ?_, ?_, ?_⟩
+  · simp only [p, mueff, sepParams, GenF.sepCcSep]
+  · simp only [p, mueff, sepParams, GenF.sepCs]; try ring
+  · simp only [p, mueff, c1sep, sepParams, GenF.sepC1Sep, GenF.sepC1, GenF.sepConedf]; ring
+  · simp only [p, mueff, c1sep, sepParams, GenF.sepCmuSep, GenF.sepC1Sep, GenF.sepC1, GenF.sepConedf,
+      GenF.sepCmudf, rmin]
+    have e1 : ((n : Rat) + 13 / 10) * ((n : Rat) + 13 / 10) = ((n : Rat) + 13 / 10) ^ 2 := by ring
+    rw [e1]
+
+/-- **G18i `lm_matches`** : LM-MA-ES — the constants `csigma`, `cd[i]`, `cc[i]` of `__init__` and, in
+`tell`, the path update (coordinate `j`), the update of row `i` of the low-rank matrix and the
+step-size update (argument of the exponential: `lmCore`'s `expArg`) -/
+theorem lm_matches (c : LmCfg) (sq ex : Rat → Rat) (mueff sigma : Rat) (i : Nat) :
+    lmCsigma c = GenF.lmCsigma c.batch c.n ∧
+    lmCd c i = GenF.lmCd i c.n ∧
+    lmCc c i = GenF.lmCc i c.n c.batch ∧
+    (∀ (ps zm : Vec c.n) (j : Fin c.n),
+      (1 - lmCsigma c) * ps j + sq (mueff * lmCsigma c * (2 - lmCsigma c)) * zm j
+        = GenF.lmPs sq (lmCsigma c) mueff (ps j) (zm j)) ∧
+    (∀ (mi zm : Vec c.n) (j : Fin c.n),
+      (1 - lmCc c i) * mi j + sq (mueff * lmCc c i * (2 - lmCc c i)) * zm j
+        = GenF.lmM sq (lmCc c i) mueff (mi j) (zm j)) ∧
+    (∀ (ps : Vec c.n),
+      sigma * ex (lmCsigma c / 2 * (dot ps ps / (c.n : Rat) - 1))
+        = GenF.lmSigma ex (lmCsigma c) (c.n : Rat) (dot ps ps) sigma) := by
+  refine ⟨?_, ?_, ?_, ?_, ?_, ?_⟩
+  · unfold lmCsigma GenF.lmCsigma; push_cast; ring
+  · unfold lmCd GenF.lmCd; rw [rpow_eq_pow]
+  · unfold lmCc GenF.lmCc; rw [rpow_eq_pow]
+  · intro ps zm j; unfold GenF.lmPs; ring
+  · intro mi zm j; unfold GenF.lmM; ring
+  · intro ps; unfold GenF.lmSigma; rfl
+
+/-- **G18e `openai_norm_rank_matches`** : `ranks / (batch_size - 1) - 0.5` -/
+theorem openai_norm_rank_matches (b r : Nat) : normRank b r = GenF.openaiNormRank r b := by
+  unfold normRank GenF.openaiNormRank
+  ring
+
+/-- the best of `b ≥ 2` ranks gets `+1/2`, the worst `-1/2` (the weights of the gradient estimate
+are centred) -/
+theorem openai_norm_rank_ends (b : Nat) (hb : 2 ≤ b) :
+    GenF.openaiNormRank (b - 1) b = 1 / 2 ∧ GenF.openaiNormRank 0 b = -1 / 2 := by
+  unfold GenF.openaiNormRank
+  have h1 : ((b - 1 : Nat) : Rat) = (b : Rat) - 1 := by
+    rw [Nat.cast_sub (by omega)]; simp
+  have hne : (b : Rat) - 1 ≠ 0 := by
+    have : (2 : Rat) ≤ (b : Rat) := by exact_mod_cast hb
+    intro h; linarith
+  constructor
+  · rw [h1, div_self hne]; norm_num
+  · simp; norm_num
 
 end Pyribs.GenFProofs
